@@ -1,0 +1,10 @@
+//go:build verif
+
+package chord
+
+// VerifManualTasks, when set by a verification harness, keeps startTasks from spawning the
+// three periodic maintenance goroutines; the harness then drives stabilize / fixFinger /
+// checkPredecessor as explicit steps.
+var VerifManualTasks bool
+
+func verifManualTasks() bool { return VerifManualTasks }
